@@ -6,6 +6,51 @@ MKEYS = ["january", "february", "march", "april", "may", "june", "july", "august
 WKEYS = ["monday", "tuesday", "wednesday", "thursday", "friday", "saturday", "sunday"]
 
 
+_PRISTINE = {}
+
+
+def pristine_info(lang):
+    """the language's shipped data, read from its file again under a private module name: the vocabulary the properties
+    quantify over is DATA, and must not be taken from objects that the process under test has had in its hands"""
+    if lang not in _PRISTINE:
+        import importlib.util
+        import os
+        import dateparser.data.date_translation_data as pkg
+        fn = os.path.join(os.path.dirname(pkg.__file__), lang + ".py")
+        spec = importlib.util.spec_from_file_location("_verif_pristine_" + lang.replace("-", "_"), fn)
+        mod = importlib.util.module_from_spec(spec)
+        spec.loader.exec_module(mod)
+        _PRISTINE[lang] = mod.info
+    return _PRISTINE[lang]
+
+
+def _combine(primary, supplementary):
+    """Locale data = language data overlaid with the locale's own entries (lists are appended, dicts merged, scalars
+    replaced) - the model's reading of utils.combine_dicts, on pristine data"""
+    out = {}
+    for k, v in primary.items():
+        if k in supplementary:
+            if isinstance(v, list):
+                out[k] = list(v) + list(supplementary[k])
+            elif isinstance(v, dict):
+                out[k] = _combine(v, supplementary[k])
+            else:
+                out[k] = supplementary[k]
+        else:
+            out[k] = v
+    for k, v in supplementary.items():
+        if k not in primary:
+            out[k] = v
+    return out
+
+
+def model_info(lang, shortname):
+    base = pristine_info(lang)
+    info = _combine(base, (base.get("locale_specific") or {}).get(shortname, {}))
+    info.pop("locale_specific", None)
+    return info
+
+
 def _assignments(info, normalize):
     """form -> sequence of keys written into the dictionary for that form, in construction order
     (languages/dictionary.py:75-108; :333-352 for the normalised dictionary)"""
@@ -70,10 +115,13 @@ def walk_language(req):
     targets = [("languages", lang)] + [("locales", loc) for loc in language_locale_dict.get(lang, [])]
     if req.get("targets") is not None:
         targets = [t for t in targets if t[1] in req["targets"]]
+    if req.get("order"):          # the order in which this (fresh) process loads the targets
+        byname = {t[1]: t for t in targets}
+        targets = [byname[n] for n in req["order"] if n in byname]
     out = []
     lang_words = None
     if req.get("targets") is not None and req.get("quick"):
-        li = loader.get_locale(lang).info
+        li = model_info(lang, lang)
         lang_words = {(k, w) for k in MKEYS + WKEYS for w in li.get(k, [])}
     for kind, name in targets:
         try:
@@ -81,7 +129,7 @@ def walk_language(req):
         except Exception as e:
             out.append({"target": name, "error": type(e).__name__})
             continue
-        info = loc.info
+        info = model_info(lang, name)
         words = [(k, i + 1, "month", w) for i, k in enumerate(MKEYS) for w in info.get(k, [])] + \
                 [(k, i, "weekday", w) for i, k in enumerate(WKEYS) for w in info.get(k, [])]
         wset = {(k, w) for k, _, _, w in words}
@@ -226,7 +274,8 @@ def walk_relative(req):
 
     for kind, name in targets:
         try:
-            info = loader.get_locale(name).info
+            loader.get_locale(name)
+            info = model_info(lang, name)
         except Exception as e:
             out.append({"target": name, "error": type(e).__name__})
             continue
